@@ -224,6 +224,7 @@ def explore_scenario_run(ix, symbols=None, cls="behave.model:Scenario", mutate=N
             g["iter_open"] = True
             g["iter_result"] = False
             g["iter_run"] = False
+            g["iter_nomatch"] = False
             g["cur_step"] = ev[3]
         elif k == "loopexit" and ev[1] == run_loop:
             _close_iteration(st)
@@ -255,6 +256,7 @@ def explore_scenario_run(ix, symbols=None, cls="behave.model:Scenario", mutate=N
         elif k == "find_match":
             if ev[1] is False and g.get("iter_open"):
                 g["pending_undef"] = True
+                g["iter_nomatch"] = True
         elif k == "setattr" and ev[3] == "_cached_status" and ev[1] == g.get("current_element"):
             v = ev[4]
             final = isinstance(v, EnumVal) and v.name != "untested"
@@ -279,6 +281,8 @@ def explore_scenario_run(ix, symbols=None, cls="behave.model:Scenario", mutate=N
                 if not g.get("iter_run"):
                     if stv.name not in ("skipped", "undefined", "untested"):
                         g.setdefault("s3.err", "step that was not run was given status %s" % stv.name)
+                    elif g.get("iter_nomatch") and stv.name != "undefined":
+                        g.setdefault("s3.err", "a remaining step for which no step definition was found ends %s instead of undefined" % stv.name)
                     g["notrun_" + stv.name] = True
         g["cur_step"] = None
 
